@@ -93,6 +93,23 @@ class Trace:
     def const(self):
         return self.root[1] if self.root[0] == "const" else None
 
+    def key(self):
+        """identity of the traced value inside one body (hashable): two operands with equal keys denote the same value source.
+        Unlike describe() it distinguishes two different locals / two calls of the same function."""
+        r = self.root
+        k = r[0]
+        if k in ("param", "multi", "undef"):
+            rid = r[1]
+        elif k == "upvar":
+            rid = r[1]
+        elif k == "const":
+            rid = repr(r[1])
+        elif k in ("call", "rv", "other"):
+            rid = (r[1].bb, r[1].idx)
+        else:
+            rid = None
+        return (k, rid, tuple(self.fields))
+
     def describe(self):
         r = self.root
         k = r[0]
